@@ -343,6 +343,22 @@ func (st *c09State) prepare(w *engine.Worker, cs *c09Case) error {
 			}
 		}
 		return nil
+	case "gomod-dir":
+		// a DIRECTORY named go.mod in the working directory (the real go.mod is further up)
+		if cs.env.Cwd == "" {
+			return nil
+		}
+		return os.MkdirAll(filepath.Join(w.Mod, cs.env.Cwd, "go.mod"), 0o755)
+	case "outfile":
+		// the output directory itself exists as a regular file
+		dir := filepath.Join(w.Mod, cs.spec.OutDir())
+		if cs.spec.OutDir() == "" || cs.spec.OutDir() == "." || cs.spec.OutDir() == cs.env.Cwd {
+			return nil
+		}
+		if err := os.MkdirAll(filepath.Dir(dir), 0o755); err != nil {
+			return err
+		}
+		return os.WriteFile(dir, []byte("a file, not a directory\n"), 0o644)
 	case "file":
 		// a regular file where the token package directory belongs
 		dir := filepath.Join(w.Mod, cs.spec.OutDir())
@@ -443,8 +459,10 @@ func RunC09(c *Ctx) error {
 		{Out: "ABS:gen/"}, {Cwd: "a/b", Out: "ABS:./gen"}, {Out: "./out/"}, {Cwd: "a/b", Out: "x/../sub"}, {Out: "ABS:gen//deep"},
 		// the grammar file somewhere else than the working directory
 		{Via: "symlink"}, {Via: "symlink", Cwd: "a/b", Out: "sub"},
+		// -o naming the working directory itself
+		{Out: "."}, {Cwd: "a/b", Out: "ABS:"},
 		{GDir: "src/grammar"}, {Cwd: "a/b", GDir: ".."}, {GDir: "ABS:src", Out: "out"}, {Cwd: "a/b", GDir: "../../top", Pkg: true}}
-	pres := []string{"", "other", "debris", "file", "corrupt", "debris-other"}
+	pres := []string{"", "other", "debris", "file", "corrupt", "debris-other", "outfile", "gomod-dir"}
 	quickFlags := [][]string{{}, {"-zip"}, {"-v", "-a"}, {"-no_lexer"}, {"-debug_lexer", "-debug_parser"}, {"-zip", "-no_lexer", "-v"}}
 	var cfgs []*c09Case
 	seen := map[string]bool{}
@@ -793,6 +811,13 @@ func RunC09(c *Ctx) error {
 			continue
 		}
 		rr := prng.Sub(c.Seed, "c09mut/"+cs.key(), ci)
+		if ci%4 == 0 {
+			for _, odd := range []struct{ text, what string }{{"", "empty"}, {"/* nothing but a comment */\n// and another\n", "only comments"}, {"\n\n \t\n", "only white space"}} {
+				cs2 := *cs
+				cs2.spec.GrammarText = odd.text
+				mjobs = append(mjobs, &mjob{cs: &cs2, what: odd.what})
+			}
+		}
 		for k := 0; k < nMut; k++ {
 			pos := spots[rr.Intn(len(spots))]
 			var mt, what string
